@@ -5,7 +5,7 @@ import weakref
 
 from mc import env  # noqa: F401
 from mc import kernel
-from mc.report import Violation, HarnessError
+from mc.report import Violation, HarnessError, Lookalike
 from props.displib import Ordered, calibrate
 
 import desper
@@ -299,6 +299,217 @@ def run_case(case):
             'nontrivial': 'disappeared_during_dispatch' in hits}
 
 
+# -- E3: a dropped handler leaves the dispatcher as a removed one does --------
+@desper.event_handler('go')
+class Late(Ordered):
+    def __init__(self, envx, idx):
+        self.envx = envx
+        self.idx = idx
+
+    def go(self, token=None):
+        self.envx.log.append((token, self.idx))
+
+
+TWIN_OPS = ('disable', 'enable', 'dispatch', 'add')
+
+
+def twin_cases(tier):
+    out = []
+    n = 4 if tier == 'quick' else 5
+    for k in (1, 2):
+        for mask in range(1, 1 << k):
+            for length in range(1, n + 1):
+                for seq in itertools.product(TWIN_OPS, repeat=length):
+                    if seq.count('add') > 1 or 'dispatch' not in seq:
+                        continue
+                    out.append((k, mask, seq))
+    return out
+
+
+def run_twin(case):
+    """Two dispatchers with the same listeners; in one the listeners of
+    ``mask`` lose their last reference, in the other they are removed with
+    remove_handler.  The same later history (disable / dispatch / a new
+    listener / enable) must be delivered alike: a handler that is gone "is
+    no longer registered and later dispatches work normally"."""
+    k, mask, seq = case
+    logs = []
+    hits = {}
+    for mode in ('drop', 'remove', 'keep'):
+        envx = Env()
+        envx.log = []
+        d = desper.EventDispatcher()
+        objs = []
+        for i in range(k):
+            o = Late(envx, i)
+            o._h = i + 1
+            objs.append(o)
+            d.add_handler(o)
+        del o
+        for j in range(k):
+            if mask >> j & 1:
+                if mode == 'drop':
+                    objs[j] = None
+                elif mode == 'remove':
+                    d.remove_handler(objs[j])
+        keep = []
+        n = 0
+        enabled = True
+        try:
+            for op in seq:
+                if op == 'disable':
+                    d.dispatch_enabled = enabled = False
+                elif op == 'enable':
+                    d.dispatch_enabled = enabled = True
+                elif op == 'dispatch':
+                    n += 1
+                    if not enabled:
+                        hits['dispatch_while_disabled_after_drop'] = 1
+                    d.dispatch('go', n)
+                elif op == 'add':
+                    late = Late(envx, 9)
+                    late._h = 99
+                    keep.append(late)
+                    d.add_handler(late)
+                    if not enabled and n:
+                        hits['listener_added_over_a_backlog'] = 1
+            d.dispatch_enabled = True
+            d.dispatch('go', 'last')
+        except Exception as exc:
+            raise Violation('dispatch_raises_nothing',
+                            f'{case} ({mode}): {exc!r}', variant='twin')
+        # (mode keep: the listeners of the mask stay registered - what they
+        # hear themselves is set aside)
+        logs.append(sorted((r for r in envx.log
+                            if not (r[1] < k and mask >> r[1] & 1)),
+                           key=repr))
+        del objs, keep
+    if logs[0] != logs[2]:
+        raise Violation(
+            'dropped_handler_leaves_later_dispatches_alone',
+            f'{case}: with the listeners of mask {mask} dropped the other '
+            f'listeners receive (token, listener) {logs[0]}; with those '
+            f'listeners still registered they receive {logs[2]} (an event '
+            f'that has had handlers stays a known event)', variant='twin')
+    if logs[0] != logs[1]:
+        raise Violation(
+            'dropped_handler_leaves_dispatcher_as_removed_one',
+            f'{case}: with the listeners of mask {mask} dropped the later '
+            f'deliveries (token, listener) are {logs[0]}; with the same '
+            f'listeners removed by remove_handler they are {logs[1]}',
+            variant='twin')
+    return {'calls': len(seq) + 2, 'hits': hits, 'key': repr(case)}
+
+
+# -- E2: components removed while dispatching is disabled ---------------------
+def _make_removal_class():
+    @desper.event_handler('on_remove')
+    class WR(Ordered):
+        def __init__(self, envx, idx):
+            self.envx = envx
+            self.idx = idx
+
+        def on_remove(self, entity, world):
+            envx = self.envx
+            envx.log.append(self.idx)
+            if envx.plan.get(self.idx) == 'raise' and self.idx not in envx.fired:
+                envx.fired.add(self.idx)
+                raise Stop(f'on_remove of {self.idx}')
+
+        def __bool__(self):
+            return getattr(self, 'idx', 0) % 2 == 0
+    return WR
+
+
+class Stop(Lookalike):
+    """Stands for Quit / SwitchWorld raised from a callback."""
+
+
+WR = _make_removal_class()
+
+
+def removal_cases(tier):
+    out = []
+    for k in (1, 2, 3):
+        for mask in range(1, 1 << k):
+            members = [j for j in range(k) if mask >> j & 1]
+            for how in ('remove', 'delete_now', 'delete'):
+                for raising in itertools.product((0, 1), repeat=len(members)):
+                    out.append((k, mask, how, raising))
+    return out
+
+
+def run_removal(case):
+    """k entities with one handler component each, the world owning the
+    only strong reference.  While dispatching is disabled the components of
+    ``mask`` are detached; their on_remove is postponed, so the world still
+    refers to them.  Enabling delivers the callbacks - some of them raise
+    (once) - and the program enables again until nothing raises.  Then
+    every detached component got on_remove exactly once and is gone."""
+    k, mask, how, raising = case
+    envx = Env()
+    envx.log = []
+    envx.fired = set()
+    members = [j for j in range(k) if mask >> j & 1]
+    envx.plan = {j: 'raise' for j, r in zip(members, raising) if r}
+    hits = {}
+    w = desper.World()
+    refs, ents = [], []
+    for i in range(k):
+        o = WR(envx, i)
+        o._h = i + 1
+        refs.append(weakref.ref(o))
+        ents.append(w.create_entity(o))
+    del o
+    w.dispatch_enabled = False
+    for j in members:
+        if how == 'remove':
+            w.remove_component(ents[j], WR)
+        elif how == 'delete_now':
+            w.delete_entity(ents[j], immediate=True)
+        else:
+            w.delete_entity(ents[j])
+    if how == 'delete':
+        w.process(0)
+    if envx.log:
+        raise Violation('nothing_called_while_disabled', f'{case}: '
+                        f'{envx.log}', variant='removal')
+    rounds = 0
+    while True:
+        rounds += 1
+        try:
+            w.dispatch_enabled = True
+        except Stop:
+            hits['release_interrupted_by_raising_callback'] = 1
+            if rounds > k + 1:
+                raise Violation('dispatch_raises_nothing',
+                                f'{case}: enabling keeps raising',
+                                variant='removal')
+            continue
+        except Exception as exc:
+            raise Violation('dispatch_raises_nothing', f'{case}: {exc!r}',
+                            variant='removal')
+        break
+    if sorted(envx.log) != members:
+        raise Violation(
+            'postponed_on_remove_delivered_once',
+            f'{case}: detached while disabled {members}; on_remove reached '
+            f'{envx.log} after {rounds} enabling assignment(s)',
+            variant='removal', lost=len(envx.log) < len(members))
+    gc.collect()
+    for j in range(k):
+        alive = refs[j]() is not None
+        if alive and j in members:
+            raise Violation('dropped_handler_is_released',
+                            f'{case}: component {j} was detached, got its '
+                            f'on_remove, and the world still keeps it alive',
+                            variant='removal')
+        if not alive and j not in members:
+            raise HarnessError(f'{case}: component {j} died while attached')
+    hits['detached_while_disabled'] = 1
+    return {'calls': rounds + len(members), 'hits': hits, 'key': repr(case)}
+
+
 def cases(tier):
     out = []
     ks = (1, 2, 3)
@@ -336,6 +547,19 @@ def run(tier, rep):
         'a listener dropped by an earlier callback of the same dispatch must '
         'not be called (it no longer exists); one dropped after it was called '
         'is fine',
+        'part drop-vs-remove (E3): "no longer registered and later dispatches '
+        'work normally" is judged differentially - the dispatcher behaves '
+        'after losing a listener to the garbage collector exactly as after '
+        'remove_handler of that listener, under every later history of '
+        'disable / dispatch / one new listener / enable up to the stated '
+        'length (deliveries compared as a multiset of (token, listener)); '
+        'and what the *other* listeners receive is what they receive when '
+        'the listener is still registered (dispatch documents that an event '
+        'which has had handlers is not an unknown event)',
+        'part detached-while-disabled (E2): the postponed on_remove is what '
+        'still refers to a component detached while dispatching is '
+        'disabled; once it is delivered (the program enables again after '
+        'every callback that raised) the component is released',
     ]
     all_cases = cases(tier)
     rep.require_hits(disappeared_during_dispatch=1,
@@ -352,10 +576,28 @@ def run(tier, rep):
             rep, variant,
             params=dict(k=(1, 2, 3), menu=[repr(a) for a in menu(variant, 3)],
                         orders='all k! (calibrated through __hash__)'))
+    rep.require_hits(dispatch_while_disabled_after_drop=1,
+                     listener_added_over_a_backlog=1)
+    kernel.enumerate_cases(run_twin, twin_cases(tier), rep, 'drop-vs-remove',
+                           params=dict(listeners=(1, 2), ops=TWIN_OPS,
+                                       max_ops=4 if tier == 'quick' else 5))
+    rep.require_hits(release_interrupted_by_raising_callback=1,
+                     detached_while_disabled=1)
+    kernel.enumerate_cases(run_removal, removal_cases(tier), rep,
+                           'detached-while-disabled',
+                           params=dict(k=(1, 2, 3),
+                                       how=('remove', 'delete_now', 'delete'),
+                                       faults='every subset raises once'))
 
 
 def replay(rec):
     try:
+        if rec['part'] == 'drop-vs-remove':
+            run_twin(kernel.totuple(rec['case']))
+            return None
+        if rec['part'] == 'detached-while-disabled':
+            run_removal(kernel.totuple(rec['case']))
+            return None
         run_case(kernel.totuple(rec['case']))
     except Violation as v:
         return v
